@@ -376,6 +376,7 @@ def regenerate_tables(ctx):
     return {"file": "coq/gen/C13Tables.v", "classes": len(recs), "changed": changed,
             "members": sum(len(r.parts) for r in recs), "attributes": sum(len(r.attrs) for r in recs),
             "lexical_types_not_checked": NOT_CHECKED, "members_registered_under_a_foreign_key": FOREIGN_KEYS,
+            "under_theorem": UNDER_THEOREM, "correspondence_only": CORRESPONDENCE_ONLY,
             "supplements_to_the_class_tables": sorted(SUPPLEMENTS_USED),
             # table obligations are the table_* theorems of Property.v (counted there)
             "obligations": 0, "discharged": 0}
@@ -1200,23 +1201,60 @@ def produce(case):
 
 
 # =============================================================================== injected defects
+def _node_classes(root):
+    """element -> class record the tables assign to it (None: lax content without a declaration).  Only used to
+    LABEL an injected defect as one the class tables can express or not; it judges nothing."""
+    recs = load_table()
+    by_tag = {}
+    for i, r in enumerate(recs):
+        if r.elem:
+            by_tag.setdefault(r.tag, i)
+    out = {}
+
+    def walk(el, k):
+        out[el] = None if k is None else recs[k]
+        for kid in el:
+            t = _clark(kid.tag) if isinstance(kid.tag, str) else None
+            kk = None
+            if k is not None and t is not None:
+                part = [p for p in recs[k].parts if p[0] == t]
+                kk = part[0][1] if part else by_tag.get(t)
+            elif t is not None and k is None:
+                kk = None
+            walk(kid, kk)
+
+    walk(root, by_tag.get(_clark(root.tag)))
+    return out
+
+
 def _mutations(root, rng):
     """All single structural defects applicable to the parsed document; one is drawn by the caller."""
     nodes = list(root.iter())
     parent = {c: p for p in nodes for c in p}
+    cls = _node_classes(root)
     out = []
     for n in nodes:
         kids = list(n)
+        rec = cls.get(n)
         for i in range(len(kids) - 1):
             if kids[i].tag != kids[i + 1].tag:
                 out.append(("swap", n, i))
         for i, k in enumerate(kids):
-            out.append(("drop_child", n, i))
-            out.append(("dup_child", n, i))
+            part = [p for p in rec.parts if p[0] == _clark(k.tag)] if rec is not None else []
+            count = sum(1 for x in kids if x.tag == k.tag)
+            if part and part[0][2] >= count:
+                out.append(("drop_child_req", n, i))      # the tables say: at least `count` of them
+            else:
+                out.append(("drop_child_opt", n, i))
+            if part and part[0][3] is not None and count >= part[0][3]:
+                out.append(("dup_child_max", n, i))       # the tables say: at most `count`
+            else:
+                out.append(("dup_child_free", n, i))
         for a in list(n.attrib):
             if a.startswith("{" + XSI + "}"):
                 continue
-            out.append(("drop_attr", n, a))
+            decl = [d for d in rec.attrs if d[0] == _clark(a)] if rec is not None else []
+            out.append(("drop_attr_req" if decl and decl[0][2] else "drop_attr_opt", n, a))
             v = n.attrib[a]
             if v in ("true", "false"):
                 out.append(("bad_value", n, (a, rng.choice(["True", "yes", "", "tru e", "TRUE", "2"]))))
@@ -1256,11 +1294,11 @@ def mutate(doc, seed):
         a, b = kids[x], kids[x + 1]
         n.remove(b)
         n.insert(x, b)
-    elif kind == "drop_child":
+    elif kind.startswith("drop_child"):
         n.remove(list(n)[x])
-    elif kind == "dup_child":
+    elif kind.startswith("dup_child"):
         n.insert(x, copy.deepcopy(list(n)[x]))
-    elif kind == "drop_attr":
+    elif kind.startswith("drop_attr"):
         del n.attrib[x]
     elif kind == "bad_value":
         n.attrib[x[0]] = x[1]
@@ -1276,6 +1314,16 @@ def mutate(doc, seed):
 # =============================================================================== observation
 def observe(case):
     setup()
+    if case["b"] == "lex_instant":
+        from saml2 import time_util
+
+        return {"exc": None, "tree": None, "xsd": None, "xsd_ext": None, "vi": "na", "why": "", "mut_kind": None,
+                "compensated": False, "size": 0, "value": time_util.instant(time_stamp=case["a"]["ts"])}
+    if case["b"] == "lex_sid":
+        from saml2 import s_utils
+
+        return {"exc": None, "tree": None, "xsd": None, "xsd_ext": None, "vi": "na", "why": "", "mut_kind": None,
+                "compensated": False, "size": 0, "value": s_utils.sid()}
     doc, out, exc = produce(case)
     obs = {"exc": exc, "tree": None, "xsd": None, "xsd_ext": None, "vi": "na", "why": "", "mut_kind": None,
            "compensated": False, "size": 0}
@@ -1314,11 +1362,18 @@ def coq_binfo(case, obs):
     return MODELLED[case["b"]](case, obs)
 
 
+NO_CLAIM = ("drop_child_opt", "drop_attr_opt", "dup_child_free")
+
+
 def coq_case(case, obs):
+    if case["b"] == "lex_instant":
+        return "C13.Corr.mk (XInstant %d%%N %s) BOther None false false VNA 0" % (case["a"]["ts"], _cq_str(obs["value"]))
+    if case["b"] == "lex_sid":
+        return "C13.Corr.mk (XSid %s) BOther None false false VNA 0" % _cq_str(obs["value"])
     t = "None" if obs["tree"] is None else "(Some %s)" % cq_tree(obs["tree"])
     vi = {"true": "VTrue", "false": "VFalse", "crash": "VCrash", "na": "VNA"}[obs["vi"]]
-    return "C13.Corr.mk %s %s %s %s %s %s" % (coq_binfo(case, obs), t, cq(bool(obs["xsd"])), cq(bool(obs["xsd_ext"])), vi,
-                                             cq(case.get("mut") is not None))
+    mut = 0 if case.get("mut") is None else (2 if obs["mut_kind"] in NO_CLAIM else 1)
+    return "C13.Corr.mk XNone %s %s %s %s %s %d" % (coq_binfo(case, obs), t, cq(bool(obs["xsd"])), cq(bool(obs["xsd_ext"])), vi, mut)
 
 
 def explain_term(term):
@@ -1915,6 +1970,27 @@ def gen_metadata(ctx, rng):
     return out
 
 
+def gen_lex(ctx, rng):
+    out = []
+    day = 86400
+    stamps = [1, 59, 60, 3599, 3600, day - 1, day, day + 1, 68169599, 68169600,          # 1972-02-29 / 03-01
+              951782399, 951782400, 951868800,                                            # 2000-02-28/29, 03-01
+              946684799, 946684800, 1709164800, 1709251199, 1709251200, NOW,              # 1999/2000, 2024-02-29
+              4107542399, 4107542400, 4107628800,                                         # 2100-02-28 -> 03-01 (no leap day)
+              13574563199, 13574563200, 13574649600,                                      # 2400-02-28/29
+              32503679999, 32503680000, 253402300799]                                     # year 3000, end of 9999
+    for m in range(1, 13):
+        stamps.append(env.epoch(2023, m, 1) - 1)
+        stamps.append(env.epoch(2024, m, 1))
+    for _ in range(600 if ctx.thorough else 120):
+        stamps.append(rng.randrange(1, 253402300800) if rng.random() < .5 else rng.randrange(1, 4102444800))
+    for ts in stamps:
+        out.append(case("lex_instant", {"ts": ts}, {}, "lex_instant"))
+    for _ in range(200 if ctx.thorough else 40):
+        out.append(case("lex_sid", {}, {}, "lex_sid"))
+    return out
+
+
 def generate(ctx):
     rng = ctx.rng
     cases = gen_authn_request(ctx, rng) + gen_requests(ctx, rng) + gen_responses(ctx, rng) + gen_metadata(ctx, rng)
@@ -1927,10 +2003,12 @@ def generate(ctx):
         c["mut"] = rng.randrange(1 << 30)
         c["tag"] = "mut:" + c["tag"]
         muts.append(c)
-    return cases + muts
+    return cases + muts + gen_lex(ctx, rng)
 
 
 def nontrivial(case_, obs):
+    if case_["b"].startswith("lex_"):
+        return (case_["b"], obs["value"])
     if obs["tree"] is None:
         return None
     import hashlib
@@ -1965,9 +2043,67 @@ def histogram(cases, observed):
 
 
 FINDING_CLASSES = {1: "C13-F1", 2: "C13-F2", 3: "C13-F3", 4: "C13-F4", 5: "C13-F5", 6: "C13-F6", 7: "C13-F7"}
-RULE = ""
-TRUSTED = []
-ASSUMPTIONS = []
+UNDER_THEOREM = {
+    "create_authn_request": "c13_authn_request_valid (all option handling: ACS url/index/binding, hide, ProviderName, "
+                            "ForceAuthn, IsPassive, NameIDPolicy/AllowCreate/vorg, RequestedAuthnContext, Scoping, Conditions, "
+                            "Subject, Extensions with eIDAS SPType / RequestedAttributes, consent, destination, signing)",
+    "create_logout_request": "c13_logout_request_valid",
+    "create_logout_response": "c13_logout_response_valid (_status_response)",
+    "create_manage_name_id_response": "c13_manage_name_id_response_valid (_status_response)",
+    "create_artifact_response": "c13_artifact_response_valid (_status_response + the stored message)",
+    "create_error_response / _response (Response shell of create_authn_response, create_attribute_response, "
+    "create_authn_query_response: assertions as serialised)": "c13_response_valid, c13_error_response_valid",
+    "create_attribute_query": "c13_attribute_query_valid (Attribute elements as serialised)",
+    "create_artifact_resolve": "c13_artifact_resolve_valid",
+    "create_name_id_mapping_response": "c13_name_id_mapping_response_refuted / _never_valid (finding C13-F1)",
+    "s_utils.sid / time_util.instant": "c13_sid_lexical, c13_instant_lexical",
+    "SamlBase._to_element_tree (every class, every object)": "c13_serialiser + c13_table_consistent",
+}
+CORRESPONDENCE_ONLY = [
+    "create_authz_decision_query", "create_authz_decision_query_using_assertion", "create_authn_query",
+    "create_name_id_mapping_request", "create_ecp_authn_request", "create_manage_name_id_request",
+    "create_authn_response / create_authn_request_response (the Assertion: C09's assembly; here validated, not modelled)",
+    "create_ecp_authn_request_response", "create_attribute_response (assertion part)", "create_assertion_id_request_response",
+    "create_authn_query_response (assertion part)", "metadata.entity_descriptor and its do_* helpers",
+    "metadata.entities_descriptor", "metadata.sign_entity_descriptor", "metadata.create_metadata_string",
+    "create_assertion_id_request / create_discovery_service_request (return an identifier / a URL, no XML)",
+]
+RULE = ("quick: complete AllowCreate lattice nameid_format(4) x configured format(3) x allow_create argument(3) x configuration(3), "
+        "vorg(2) x name_id_policy keyword(3) against every format pair; complete hide(2) x assertion_consumer_service_urls(3) x "
+        "_url(2) x _index(2) on two bindings and hide x binding(4) x service_url_binding(3); complete force_authn keyword(6) x "
+        "configuration(4) x is_passive(3); provider_name(3) x configured name(2) x binding(2); requested_authn_context keyword(7) x "
+        "configuration(2); extensions(3) x sp_type(4) x eIDAS requested attributes argument(4) x configuration(2); sign(3) x "
+        "authn_requests_signed(2) x sign_prepare(2); every other public create_* of Saml2Client / Server / Entity over its "
+        "option lattice (name ids, session indexes, bindings, status factories, issuers, signing, encryption, PEFIM, "
+        "error infos incl. exceptions), metadata generation over roles x ui_info / organisation / contacts / entity attributes "
+        "and categories / eIDAS options / endpoints / key usage / signing; seeded random mixtures; plus one injected defect "
+        "(swap, drop / duplicate child, drop / corrupt / add attribute, foreign child, stray text) into a sample of the outputs; "
+        "plus instant() at calendar boundaries and random time stamps and sid() samples.  thorough: the full six-fold products "
+        "and 1500 injected defects.  non-trivial = distinct (builder, element/attribute shape of the output, defect kind, "
+        "oracle verdict)")
+TRUSTED = ["xmlschema + the XSD documents shipped in saml2/data/schemas (the oracle)",
+           "xmlsec1 stand-in (harness/standin/xmlsec1.py) for signed / encrypted variants; its ElementTree re-serialisation "
+           "drops the xmlns:xs declaration used only inside xsi:type values - put back before validation (harness/c13.py "
+           "compensate_standin)",
+           "independent reader (xml.etree) and abstraction in harness/c13.py; base64 payloads longer than 96 characters are "
+           "cut to nine groups (alphabet, alignment and padding preserved)",
+           "hand-written supplements to the class tables (wildcards of Extensions / SOAP Header, Body; eIDAS isRequired "
+           "type): listed in coverage.tables.supplements_to_the_class_tables and validated against the schemas by the "
+           "correspondence"]
+ASSUMPTIONS = [
+    "level: proof for the structural part (class-table order, occurrence bounds, required / declared attributes, lexical "
+    "forms boolean, dateTime, ID/NCName, integer types, base64Binary, enumerations); exploration for what the XSD "
+    "documents add (choice groups, ID uniqueness, xsi:type content, QName / duration / anyURI facets) and for the builders "
+    "listed under coverage.tables.correspondence_only",
+    "valid call arguments: boolean-valued options as the strings the library itself uses ('true'/'false'/'1'/'0') or "
+    "Python booleans where the code converts them; identifiers are NCNames; element instances handed in by the caller "
+    "(NameID, Subject, Scoping, Conditions, RequestedAuthnContext, Extensions content) are themselves valid; "
+    "create_authz_decision_query gets a resource and at least one Action with Namespace, create_authn_query a "
+    "RequestedAuthnContext, authn dicts name a class_ref, organisations have name + display_name + url, eIDAS "
+    "requested attributes are known to an attribute converter",
+    "instant(): time stamps from 1 to the end of year 9999 (four-digit years); sid(): any string of ASCII letters / digits",
+    "a call that raises emits nothing: recorded in the histogram (exceptions), not judged",
+]
 
 
 # =============================================================================== abstract arguments of the modelled builders
